@@ -1,14 +1,14 @@
 SPECIFICATION Spec
 CONSTANTS
   SEED = 1
-  M_CORE = 2
-  M_DIV = 6
-  M_INT = 12
+  M_CORE = 1
+  M_DIV = 1
+  M_INT = 1
   M_UN = 1
-  M_NARY = 24
-  M_EXPT = 4
-  M_STR = 6
-  M_MIX = 6
+  M_NARY = 2
+  M_EXPT = 1
+  M_STR = 1
+  M_MIX = 1
   FAMILY = "all"
 INVARIANTS TypeOK Laws Emit
 CHECK_DEADLOCK FALSE
